@@ -273,6 +273,12 @@ def verify(contract, make_args, cfg_label='', loop_mode=None, timeout_ms=None, e
       except (ValueError, TypeError, IndexError, KeyError, AssertionError, ZeroDivisionError) as e:
         if isinstance(e, (tfc.NoContract, E.SymbolicValueError)):
           raise
+        if type(contract).raised is Contract.raised:
+          # implicit postcondition "returns normally" under the precondition: the exception was raised on
+          # this (feasible, see cover check) path.  Reported only if the real code raises natively as well
+          # (prop.conclude); otherwise it is a checker error.
+          holder['out'] = None
+          return [('returns-normally: raised %s: %s' % (type(e).__name__, str(e).splitlines()[0][:120] if str(e) else ''), E.FALSE)]
         out = contract.raised(e, *args, **kw)
       else:
         out = contract.view(out, *args, **kw)
@@ -281,6 +287,8 @@ def verify(contract, make_args, cfg_label='', loop_mode=None, timeout_ms=None, e
 
   def canary_fn(c):
     out = holder['out']
+    if out is None:
+      return ('canary:raised', E.FALSE)
     t = out
     while isinstance(t, (list, tuple)):
       t = t[0]
